@@ -250,3 +250,24 @@ func parallelMap[T any](n, workers int, f func(i int) T) []T {
 	}
 	return out
 }
+
+func bucket(n int) int {
+	for _, b := range []int{4, 8, 16, 32, 64, 128, 1 << 30} {
+		if n < b {
+			return b
+		}
+	}
+	return 0
+}
+
+func joinInts(xs []int) string {
+	parts := make([]string, len(xs))
+	for i, x := range xs {
+		parts[i] = fmt.Sprint(x)
+	}
+	if len(parts) == 0 {
+		return "-"
+	}
+	return strings.Join(parts, ",")
+}
+
